@@ -109,7 +109,14 @@ impl Polytope {
         let pb = problem.solver;
         let vars = problem.vars;
 
-        match pb.solve() {
+        // minilp unwraps internally on numerically singular bases (badly scaled systems);
+        // report that as a solver error instead of unwinding through the caller
+        let result = match std::panic::catch_unwind(std::panic::AssertUnwindSafe(|| pb.solve())) {
+            Ok(result) => result,
+            Err(_) => return PolytopeStatus::Error("minilp panicked while solving".to_owned()),
+        };
+
+        match result {
             Ok(sol) => {
                 let wit = Array1::from_iter(vars.iter().map(|var| sol[*var]));
                 if wit.iter().any(|x| x.is_infinite() || x.is_nan()) {
